@@ -29,9 +29,10 @@ theorem reset_refines_table {s s' : State} {id code : Nat} {b : Bool} (h : s.res
 theorem stopped_refines_table (s : State) (id : Nat) : s.stopped id = expectedStopped (absSend s id) :=
   stopped_table s id
 
-/-- `write`: Blocked while the connection is closing or has no connection-level room; a closed stream
-    after finish / reset / full acknowledgement; the peer's code once stopped; otherwise Blocked iff
-    no stream credit, else exactly `min(n, credit)` bytes -/
+/-- `write`: Blocked while the connection is closing; the peer's code on a writable half it stopped
+    (before the connection-level room is looked at); Blocked without connection-level room; a closed
+    stream after finish / reset / full acknowledgement; otherwise Blocked iff no stream credit, else
+    exactly `min(n, credit)` bytes -/
 theorem write_refines_table {s s' : State} {id n : Nat} {r : Except WriteErr Nat}
     (h : s.write id n = some (s', r)) :
     r = expectedWrite s.connClosed (Gen.writeLimit s.maxData s.dataSent s.sendWindow s.unackedData)
@@ -39,6 +40,27 @@ theorem write_refines_table {s s' : State} {id n : Nat} {r : Except WriteErr Nat
   write_table h
 
 /-! ### receiving half -/
+
+/-- a writable send half the peer has stopped (`stop_reason = Some(c)`) reports `Stopped(c)` on an
+    open connection whatever the connection-level credit and send window are: in particular not
+    `Blocked` when they are exhausted, which would park the writer on a `Writable` event that never
+    comes (a stopped stream gets no further MAX_STREAM_DATA) -/
+theorem write_on_stopped_stream {s s' : State} {id n c : Nat} {r : Except WriteErr Nat}
+    (h : s.write id n = some (s', r)) (hc : s.connClosed = false)
+    (ha : absSend s id = .ready (some c)) : r = .error (.stopped c) := by
+  have := write_table h
+  rw [ha, hc] at this
+  simpa [expectedWrite] using this
+
+/-- the same on the concrete half -/
+theorem write_on_stopped_half {s s' s1 : State} {id n c : Nat} {x : Send} {r : Except WriteErr Nat}
+    (h : s.write id n = some (s', r)) (hc : s.connClosed = false)
+    (hg : s.getOrInsertSend id = some (x, s1)) (hw : x.isWritable = true) (hs : x.stopReason = some c) :
+    r = .error (.stopped c) := by
+  apply write_on_stopped_stream h hc
+  rw [absSend_getOrInsert hg]
+  have hst : x.state = .ready := by simpa [Send.isWritable] using hw
+  simp [SendHalf.ofSend, hst, hs]
 
 /-- `read`: a closed or stopped half reports a closed stream; an open half never reports a reset; a
     reset half delivers no data before reporting the peer's code -/
@@ -119,5 +141,17 @@ example : (lifeWitness.map fun r => r.1.fsw) = some [.finished 0] := by decide
 example : (lifeWitness.map fun r => (absSend r.1 0, absRecv r.1 0)) = some (.gone, .gone) := by decide
 example : (lifeWitness.map fun r => (r.1.stopped 0, (expectedFinish (absSend r.1 0)).2)) = some (none, .gone) := by
   decide
+
+/-- the write-after-stop history (corpus/streams/write-after-stop.ops): the send window (100) is
+    used up, the peer stops the stream, the application polls the `Stopped` event; every later write
+    reports `Stopped(7)`, with the window still exhausted and after the acknowledgement reopened it -/
+def writeAfterStop : Option (State × Hist) :=
+  runOps State.initial [] [.new ⟨.client, 10, 10, 100, 1000000, 1000⟩, .params ⟨100, 100, 100, 10, 10, 100000⟩,
+    .open_ .uni, .write 2 100, .write 2 1, .stopSending 2 7, .poll, .write 2 1, .ack 2 0 100 false,
+    .poll, .poll, .write 2 1]
+
+example : (writeAfterStop.map fun r => r.2.reverse.map (·.2)) =
+    some [.ok, .ok, .okNat 2, .okNat 100, .errWrite .blocked, .ok, .event (.stopped 2 7),
+      .errWrite (.stopped 7), .ok, .none_, .none_, .errWrite (.stopped 7)] := by decide
 
 end QM.Props.C11
